@@ -4,3 +4,4 @@ import TaskModel.Load.MergeInvariant
 import TaskModel.Load.SortLemmas
 import TaskModel.Load.VarsLemmas
 import TaskModel.Load.Sites
+import TaskModel.Load.Siblings
